@@ -123,8 +123,11 @@ fn run_round<P>(protos: &mut [P], pairs: Vec<(usize, usize)>, order: &[u16], dro
     send: &dyn Fn(&P, &mut Vec<u8>) -> std::io::Result<()>, recv: &dyn Fn(&mut P, usize, &mut &[u8]) -> std::io::Result<()>) -> Result<Delivery, String> {
     let n = protos.len();
     let mut msgs: Vec<Option<Vec<u8>>> = vec![None; n];
+    // a party whose selector bit is set is a late sender: it produces its message only when its first delivery is due, i.e. possibly
+    // after it has itself received messages of this round (an asynchronous network; the message must still be its own share only)
+    let late = |s: usize| (order[s % order.len()] >> 3) & 1 == 1;
     for &(_, s) in &pairs {
-        if msgs[s].is_none() {
+        if msgs[s].is_none() && !late(s) {
             let mut buf = vec![];
             match catch(|| send(&protos[s], &mut buf)) { Ok(Ok(())) => {}, Ok(Err(e)) => return Err(format!("party {s}: send failed: {e}")), Err(p) => return Err(format!("party {s}: send panicked: {p}")) }
             msgs[s] = Some(buf);
@@ -136,6 +139,11 @@ fn run_round<P>(protos: &mut [P], pairs: Vec<(usize, usize)>, order: &[u16], dro
     while !pending.is_empty() {
         let i = pick_idx(order[k % order.len()], pending.len()); k += 1;
         let (r, s) = pending.remove(i);
+        if msgs[s].is_none() {
+            let mut buf = vec![];
+            match catch(|| send(&protos[s], &mut buf)) { Ok(Ok(())) => {}, Ok(Err(e)) => return Err(format!("party {s}: send (after receiving) failed: {e}")), Err(p) => return Err(format!("party {s}: send (after receiving) panicked: {p}")) }
+            msgs[s] = Some(buf);
+        }
         let m = msgs[s].as_ref().unwrap();
         match catch(|| recv(&mut protos[r], s, &mut m.as_slice())) { Ok(Ok(())) => {}, Ok(Err(e)) => return Err(format!("party {r}: receiving the message of party {s} failed: {e}")), Err(p) => return Err(format!("party {r}: receiving the message of party {s} panicked: {p}")) }
         out.push((r, s));
@@ -542,7 +550,7 @@ pub fn def() -> PropertyDef {
     PropertyDef {
         id: "C18",
         level: "exploration",
-        rule: "sessions of 1..4 protocol runs (public key, relinearization keys [two rounds, step2 interleaved per party], secret-key reveal, collective decryption, key switch to a fresh collective key, public-key switch, cipher->shares, shares->cipher, shares round trip) among n = 2..6 parties over BFV/BGV/CKKS contexts with 2..4 primes, N = 4..64 (thorough 512), inputs at generated levels and representations, encrypted under the summed key or the collective public key; the messages of every round delivered in a generated order, optionally one message withheld. exhaustive: every delivery order for n = 2 and 3 (quick: every 7th for n = 3) and every single withheld message, per protocol and scheme at N = 8. Oracle: outputs equal across parties; collective keys satisfy k0 + k1*s [- P*s^2] = small error for s = sum of the secret keys (added up by the harness) and work under an ordinary decryptor for s; decrypted plaintexts equal the encrypted ones whenever the worst-case noise model (secret norm n) stays below the modulus; shares add up to the slots mod t; a party with an incomplete inbox refuses, everybody else finishes. non-trivial: something was asserted and (n >= 3 or the delivery order is not the canonical one or a message was withheld).",
+        rule: "sessions of 1..4 protocol runs (public key, relinearization keys [two rounds, step2 interleaved per party], secret-key reveal, collective decryption, key switch to a fresh collective key, public-key switch, cipher->shares, shares->cipher, shares round trip) among n = 2..6 parties over BFV/BGV/CKKS contexts with 2..4 primes, N = 4..64 (thorough 512), inputs at generated levels and representations, encrypted under the summed key or the collective public key; the messages of every round delivered in a generated order, optionally one message withheld; per party and round a generated bit makes it a late sender, which produces its message only when its first delivery is due, after it may have received others'. exhaustive: every delivery order for n = 2 and 3 (quick: every 7th for n = 3) and every single withheld message, per protocol and scheme at N = 8. Oracle: outputs equal across parties; collective keys satisfy k0 + k1*s [- P*s^2] = small error for s = sum of the secret keys (added up by the harness) and work under an ordinary decryptor for s; decrypted plaintexts equal the encrypted ones whenever the worst-case noise model (secret norm n) stays below the modulus; shares add up to the slots mod t; a party with an incomplete inbox refuses, everybody else finishes. non-trivial: something was asserted and (n >= 3 or the delivery order is not the canonical one or a message was withheld).",
         assumptions: vec!["noise model DESIGN.md §4 with ||s|| <= n and multiparty key-switching-key error 2 n B (N n + 1)", "shares->cipher is observed at party 0, the aggregating party of the documented usage"],
         subs: vec![Sub::enumerate("all_orders_small_n", exhaustive, session), Sub::prop("random_sessions", 200_000, 1_000_000, 0.4, mp_case, session)],
     }
